@@ -61,7 +61,7 @@ def make_stubs(ctx):
     return eps, polyfit, polyval, plsq, rec
 
 
-def build(ctx, cc, lattice, nvol, ntv, nt, nq, np_, keys):
+def build(ctx, cc, lattice, nvol, ntv, nt, nq, np_, keys, system="triclinic"):
     """Calculator with symbolic data objects, created without file parsing or the QHA run."""
     import cij.io.traditional.models as md
     import cij.io.traditional.elast_dat as ed
@@ -89,23 +89,31 @@ def build(ctx, cc, lattice, nvol, ntv, nt, nq, np_, keys):
     q.volume_base.pressures = symvars("Ptv", (nt, ntv))
     q.volume_base.heat_capacity = symvars("CV", (nt, ntv), positive=True)
     calc.__dict__.update(dict(
-        config={"elast": {"settings": {"symmetry": {"system": "triclinic"}, "mode_gamma": {"interpolator": "lsq_poly", "order": 3}}},
+        config={"elast": {"settings": {"symmetry": {"system": system}, "mode_gamma": {"interpolator": "lsq_poly", "order": 3}}},
                 "qha": {"settings": {}}, "output": {}},
         qha_input=qin, elast_data=edata, qha_calculator=q))
     return calc, dict(vols=vols, ener=ener, wts=wts, evols=evols, tab=tab, lat=lat, q=q, qin=qin)
 
 
-def run_case(chk, cc, fm, lattice, tier, rng):
-    name = "lattice-block" if lattice else "no-lattice-block"
+CUBIC_EQUIV = {"c22": "c11", "c33": "c11", "c13": "c12", "c23": "c12", "c55": "c44", "c66": "c44"}
+
+
+def run_case(chk, cc, fm, lattice, tier, rng, system=None):
+    name = ("lattice-block" if lattice else "no-lattice-block") + (", system=%s" % system if system else "")
     nvol, ntv, nt, nq, np_ = 5, 4, 2, 2, 3
     keys = ["c11", "c12", "c44", "c14"] if tier == "quick" else ["c11", "c22", "c33", "c12", "c13", "c23", "c44", "c55", "c66", "c15", "c46"]
+    if system == "cubic":
+        keys = ["c11", "c12", "c44"]
     ctx = new_context()
     H, K, _ = PC.declare_constants(ctx)
     gpa, ang3 = unit_constants()
     FROMGPA = ctx.var("FROMGPA", positive=True, kind="const")
     ctx.vars["FROMGPA"]["value_hint"] = 1 / gpa
     ctx.name_float(1 / gpa, FROMGPA, rtol=1e-8, max_den=64)
-    calc, D = build(ctx, cc, lattice, nvol, ntv, nt, nq, np_, keys)
+    calc, D = build(ctx, cc, lattice, nvol, ntv, nt, nq, np_, keys, system=system or "triclinic")
+    import cij.util.fill as FILL
+    proxy_fill = NumpyProxy()
+    proxy_fill.close_mode = "structural"
     q = D["q"]
     eps, polyfit, polyval, plsq, rec = make_stubs(ctx)
     OM = symvars("OM", (ntv, nq, np_), positive=True)
@@ -143,6 +151,7 @@ def run_case(chk, cc, fm, lattice, tier, rng):
                            "polynomial_least_square_fitting": plsq}),
                      (fm, {"numpy": proxy_fm, "calculate_eulerian_strain": eps}),
                      (fm.FullThermalElasticModulus, {"get_axial_strains": axial_wrapper}),
+                     (FILL, {"numpy": proxy_fill}),
                      (tk, {"numpy": proxy_pl}), (sh, {"numpy": proxy_pl})):
             calc._apply_elastic_constants_symmetry()
             calc._interpolate_modes()
@@ -218,6 +227,19 @@ def run_case(chk, cc, fm, lattice, tier, rng):
     except Exception as e:
         chk.inconclusive(name, "expected-phonon run failed: %s" % e)
         return
+    if system == "cubic":
+        # the filling must have been applied first: nine components, dependent ones equal to their symmetry partners
+        got_keys = sorted("c%d%d" % k.v for k in res["iso"])
+        if got_keys != sorted(keys + list(CUBIC_EQUIV)):
+            fails.append("after cubic filling the tensor has components %s" % got_keys)
+        for kk, src in CUBIC_EQUIV.items():
+            D["tab"][kk] = D["tab"][src]
+        keys = keys + [k for k in CUBIC_EQUIV if "c%s" % k[1:] in got_keys]
+        try:
+            ph, _ = PL.run_pipeline(duck, strain_for_pipeline, keys)
+        except Exception as e:
+            chk.inconclusive(name, "expected-phonon run (filled keys) failed: %s" % e)
+            return
     static_syms = {n for n in ctx.vars if n.startswith("tab_")}
     t_syms = {n for n in ctx.vars if n.startswith("T") and n[1:].isdigit()}
     for which in ("iso", "adi"):
@@ -360,6 +382,7 @@ def main():
     rng = random.Random(seed() + 5)
     run_case(chk, cc, fm, False, tier, rng)
     run_case(chk, cc, fm, True, tier, rng)
+    run_case(chk, cc, fm, False, tier, rng, system="cubic")
     # stage R(b): one real end-to-end run (catches constructor-level failures the stubs cannot see)
     if not _done[0]:
         import warnings
